@@ -61,8 +61,9 @@ def ecdsa_point_case(bits):
 def eq_hash_case():
     def fn(ctx):
         from paramiko.pkey import PKey
-        f1 = (ctx.choice("name1", ["ssh-rsa", "ssh-ed25519"]), ctx.int("a1", 0, 3), ctx.int("b1", 0, 3))
-        f2 = (ctx.choice("name2", ["ssh-rsa", "ssh-ed25519"]), ctx.int("a2", 0, 3), ctx.int("b2", 0, 3))
+        # the field values are solver choices (not symbolic integers): hashing is C-level and needs concrete tuples
+        f1 = (ctx.choice("name1", ["ssh-rsa", "ssh-ed25519"]), ctx.choice("a1", [0, 1, 3]), ctx.choice("b1", [0, 2]))
+        f2 = (ctx.choice("name2", ["ssh-rsa", "ssh-ed25519"]), ctx.choice("a2", [0, 1, 3]), ctx.choice("b2", [0, 2]))
 
         class K(PKey):
             def __init__(self, f, private):
@@ -73,13 +74,17 @@ def eq_hash_case():
                 return self._f
         k1 = K(f1, ctx.flag("k1-has-private-part"))
         k2 = K(f2, ctx.flag("k2-has-private-part"))
-        same = (f1[0] == f2[0]) and bool(lift(f1[1]) == f2[1]) and bool(lift(f1[2]) == f2[2])
+        # a certificate loaded next to the key does not change which key it is
+        blob = type("PublicBlob", (), {"key_type": "x-cert", "key_blob": b"certificate bytes", "comment": "c"})
+        k1.public_blob = blob() if ctx.flag("k1-carries-a-certificate") else None
+        k2.public_blob = blob() if ctx.flag("k2-carries-a-certificate") else None
+        same = f1 == f2
         ctx.prove((k1 == k2) == same, "equality-depends-only-on-the-public-fields")
         if same:
-            if ctx.symbolic:
-                ctx.cut("hash of equal keys: compared in the replay only (hashing symbolic tuples is C-level)")
             ctx.prove(hash(k1) == hash(k2), "equal-keys-hash-equal")
-    return Case("equality-and-hash", fn, ["equality-depends-only-on-the-public-fields"], {"fields": "2 names x 4 x 4 values"})
+            ctx.prove(len({k1, k2}) == 1 and k2 in {k1: 1}, "equal-keys-are-one-entry-in-sets-and-dicts")
+    return Case("equality-and-hash", fn, ["equality-depends-only-on-the-public-fields", "equal-keys-hash-equal"],
+                {"fields": "2 names x 3 x 2 values per key", "private part": "present or not", "certificate": "attached or not"})
 
 
 def file_mode_case():
